@@ -260,3 +260,21 @@ MUTANTS.setdefault('C10', []).extend([
     ('ovl-remove-delays-when-unreferenced', _OI, "                if v.lookups.load(Ordering::Relaxed) > 0 {", "                if v.lookups.load(Ordering::Relaxed) == 0 {"),
     ('ovl-reserved-number-ignored', _OI, "            Some(v) => Ok(*v),", "            Some(_v) => self.alloc_unique_inode(),"),
 ])
+
+# the Reader side and the virtio-fs constructors / wrappers (unit readerrd; proposed and tried by the sub-agent that built it)
+_VV = 'src/transport/virtiofs/mod.rs'
+MUTANTS.setdefault('C04', []).extend([
+    ('reader-read-no-reslice', T, "                rem = &mut rem[copy_len..];\n                total += copy_len;", "                rem = &mut rem[0..];\n                total += copy_len;"),
+    ('reader-read-half-segment', T, "copy_nonoverlapping(buf.as_ptr() as *const u8, rem.as_mut_ptr(), copy_len);", "copy_nonoverlapping(buf.as_ptr() as *const u8, rem.as_mut_ptr(), copy_len / 2);"),
+    ('reader-read-offers-half', T, "self.buffers.consume_for_read(buf.len(), |bufs| {\n            let mut rem = buf;", "self.buffers.consume_for_read(buf.len() / 2, |bufs| {\n            let mut rem = buf;"),
+    ('reader-read-obj-window-too-long', T, "::std::slice::from_raw_parts_mut(obj.as_mut_ptr() as *mut u8, size_of::<T>())", "::std::slice::from_raw_parts_mut(obj.as_mut_ptr() as *mut u8, size_of::<T>() + 1)"),
+    ('reader-read-obj-ignores-short-read', T, "        self.read_exact(buf)?;\n", "        let _ = self.read_exact(buf);\n"),
+    ('virtio-wv-no-upfront-check', _VV, "self.check_available_space(bufs.iter().fold(0, |acc, x| acc + x.len()), 0, 0)?;", "self.check_available_space(0, 0, 0)?;"),
+    ('virtio-reader-takes-writable-half', _VV, "        for desc in desc_chain.readable() {", "        for desc in desc_chain.writable() {"),
+    ('virtio-writer-starts-consumed', _VV, "        Ok(VirtioFsWriter {\n            buffers: IoBuffers {\n                buffers,\n                bytes_consumed: 0,", "        Ok(VirtioFsWriter {\n            buffers: IoBuffers {\n                buffers,\n                bytes_consumed: 1,"),
+])
+MUTANTS.setdefault('C17', []).extend([
+    ('reader-read-marks-dirty', T, "self.buffers.consume_for_read(buf.len(), |bufs| {\n            let mut rem = buf;", "self.buffers.consume_for_write(buf.len(), |bufs| {\n            let mut rem = buf;"),
+    ('virtio-wv-count-not-updated', _VV, "            count += self.write(buf)?;", "            let _n = self.write(buf)?;"),
+    ('virtio-write-obj-drops-first-byte', _VV, "        self.write_all(val.as_slice())", "        self.write_all(&val.as_slice()[1..])"),
+])
